@@ -3,7 +3,7 @@ They serve the search for a failing input when a tie is broken, the replay of kn
 secondary sweep over the stream cases; a theorem is never replaced by them."""
 import re
 import xml.parsers.expat
-from e2e import parse_go, dec
+from e2e import parse_go, dec, raw_free
 
 
 def quiet_ok(go):
@@ -39,9 +39,13 @@ def xml_wf(text, fragment):
 MARKUP_EXT = (".html", ".xhtml", ".opf", ".ncx", ".xml")
 
 
+LOX_DIV = re.compile(r'<div class="lo[ftp]">')
+LOX_LI = re.compile(r'(?m)^    <li><a href="[^"]*">\d+\. .*</a>$')
+
+
 def c02_oracle(case, go):
     files = quiet_ok(go)
-    if files is None:
+    if files is None or not raw_free(case):
         return None
     fm = case.split(" ", 1)[0]
     for name, text in sorted(files.items()):
@@ -51,10 +55,16 @@ def c02_oracle(case, go):
                 return None
             e = xml_wf(text, frag)
         elif name.endswith(MARKUP_EXT):
+            frag = False
             e = xml_wf(text, False)
         else:
             continue
         if e:
+            # known finding D7: entries of a list of figures/tables/poems never close their <li>; if closing them
+            # makes the file well formed the violation is exactly D7, otherwise it is something else
+            fixed = LOX_LI.sub(lambda m: m.group(0) + "</li>", text) if LOX_DIV.search(text) else text
+            if fixed != text and xml_wf(fixed, frag if name == "" else False) is None:
+                return "KNOWN:D7 list-of-X entries never close their <li> (%r)" % (name or "<stdout file>")
             return "quiet compilation, output %r is not well-formed XML: %s" % (name or "<stdout file>", e)
     return None
 
@@ -100,7 +110,7 @@ def tex_balanced(s):
 
 def c04_oracle(case, go):
     files = quiet_ok(go)
-    if files is None or not case.startswith("l"):
+    if files is None or not case.startswith("l") or not raw_free(case):
         return None
     e = tex_balanced(files.get("", ""))
     return ("quiet compilation, LaTeX output unbalanced: " + e) if e else None
